@@ -186,6 +186,28 @@ fn main() {
                     }
                 }
             }
+            if id == "C15" && std::fs::read(file).ok().and_then(|b| serde_json::from_slice::<serde_json::Value>(&b).ok()).is_none() {
+                // a saved libFuzzer input of the journal_damage target
+                let st = std::process::Command::new("cargo")
+                    .current_dir("/verif/harness")
+                    .env("CARGO_NET_OFFLINE", "true")
+                    .args(["+nightly", "fuzz", "run", "--fuzz-dir", "/verif/fuzz", "-O", "-s", "none", "--target-dir", "/verif/fuzz/target", "journal_damage", file.as_str(), "--", "-runs=1"])
+                    .status();
+                match st {
+                    Ok(s) if s.success() => {
+                        println!("replay passes");
+                        std::process::exit(0);
+                    }
+                    Ok(_) => {
+                        println!("VIOLATION property={id} replay={file}");
+                        std::process::exit(1);
+                    }
+                    Err(e) => {
+                        eprintln!("cannot run the fuzz target: {e}");
+                        std::process::exit(2);
+                    }
+                }
+            }
             if id == "C15" {
                 let s = std::fs::read_to_string(file).expect("readable replay file");
                 let v: serde_json::Value = serde_json::from_str(&s).expect("json");
